@@ -156,6 +156,41 @@ func (o *Oracle) Fresh(c Call) string {
 	return r.Canon
 }
 
+// Young evaluates the given descriptors in a brand-new oracle process, in REVERSE order, and returns the replies in the
+// order of the argument. The long-lived oracle has evaluated thousands of other calls before; a young one has not, and
+// sees these in the opposite order: if the library keeps any state from one call to the next even in isolation (a
+// process-wide memo, say), the two references disagree on some descriptor.
+func (o *Oracle) Young(calls []Call) []oracleReply {
+	cmd := exec.Command(o.bin, "oracle")
+	var in strings.Builder
+	for i := len(calls) - 1; i >= 0; i-- {
+		b, _ := json.Marshal(calls[i])
+		in.Write(b)
+		in.WriteByte('\n')
+	}
+	cmd.Stdin = strings.NewReader(in.String())
+	cmd.Env = append(os.Environ(), "GORACE=halt_on_error=0")
+	cmd.Stderr = os.Stderr
+	out, err := cmd.Output()
+	if err != nil {
+		fmt.Fprintln(os.Stderr, "e2: young oracle process failed:", err)
+		os.Exit(2)
+	}
+	lines := strings.Split(strings.TrimRight(string(out), "\n"), "\n")
+	if len(lines) != len(calls) {
+		fmt.Fprintf(os.Stderr, "e2: young oracle answered %d of %d requests\n", len(lines), len(calls))
+		os.Exit(2)
+	}
+	res := make([]oracleReply, len(calls))
+	for i, l := range lines {
+		if err := json.Unmarshal([]byte(l), &res[len(calls)-1-i]); err != nil {
+			fmt.Fprintln(os.Stderr, "e2: bad young oracle reply:", err)
+			os.Exit(2)
+		}
+	}
+	return res
+}
+
 func (o *Oracle) Close() {
 	if o.cmd != nil {
 		o.in.Close()
